@@ -355,13 +355,22 @@ CHECKS = {
                 "delta, and the cut limit must use the other dimension and "
                 "the remaining slack. Dataflow into Instance(...), min_area, "
                 "seed provenance, statelessness and the [0,1] clamps of the "
-                "instgen objectives are decided on the AST.",
-        "design_ref": "DESIGN.md section 4, C17",
-        "note": "Decides D17.1-D17.4. Not decided: lower_bound_bins == "
-                "min_bins as a value (needs C03's undecided half), "
-                "Errors == 0 on the template, the merge step.",
+                "instgen objectives are decided on the AST. Every piece "
+                "size written is >= 1 under its guards (linear "
+                "entailment); item selections are reduced modulo the list "
+                "length; the merge of equal items preserves the item count "
+                "(scan/append/delete protocol) and the instance reaches the "
+                "receiver on every path; the search for a cuttable item "
+                "keeps its finite domains, scans cyclically and is bounded.",
+        "design_ref": "DESIGN.md section 4, C17 and 10.2",
+        "note": "Decides D17.1-D17.8. Not decided: lower_bound_bins == "
+                "min_bins as a value (needs the validity of the DAMV "
+                "bound), Errors == 0 on the template, termination of phase "
+                "1's search if no item could be cut at all.",
         "technique": "symbolic block evaluation (polynomial identities on "
-                     "a ghost area ledger) + structural dataflow/provenance",
+                     "a ghost area ledger) + linear entailment under path "
+                     "guards + finite-domain propagation + protocol rules "
+                     "+ CFG must-pass queries",
     },
     "C06": {
         "text": "Both move kernels are normalised symbolically: the "
